@@ -265,7 +265,6 @@ fn u8_dispatch(op: u8, ref_counted: bool, preimage: bool) {
 	let tid = |i: usize| -> u16 { tables[i].id.as_u16() };
 	let hdr = 2 + if ref_counted { 4 } else { 0 } + 26;
 	let fits = |s: u16| -> bool { s as usize >= hdr && len <= s as usize - hdr };
-	let target: usize = if fits(s0) { 0 } else if fits(s1) { 1 } else if fits(s2) { 2 } else { 3 };
 	match r {
 		None => assert!(false, "U8d.no_error_for_key_value_operations"),
 		Some((outcome, new_addr)) => {
@@ -284,21 +283,26 @@ fn u8_dispatch(op: u8, ref_counted: bool, preimage: bool) {
 			} else if op == 0 && preimage {
 				assert!(n == 0 && matches!(outcome, Some(PlanOutcome::Skipped)) && new_addr.is_none(), "U8d.set_preimage.skipped");
 			} else if op == 0 {
-				// Set: the new value ends up in the tier `compress` selects for it: in place if that is the current tier,
-				// otherwise the old entry is released and a new one inserted, and the new address is reported
-				if tier as usize == target {
-					assert!(n == 1 && unsafe { DC_KIND[0] } == 1 && unsafe { DC_TABLE[0] } == tid(target) && unsafe { DC_INDEX[0] } == offset && unsafe { DC_LEN[0] } == len, "U8d.set.same_tier_replaces_in_place");
-					assert!(matches!(outcome, Some(PlanOutcome::Written)) && new_addr.is_none(), "U8d.set.same_tier_outcome");
+				// Set: the new value is written either over the key's entry (same table, same slot) or into another table after
+				// the old entry was released, and then the new address is reported. That the receiving table can hold the value
+				// is the callee precondition asserted by the recorders (U8d.callee_pre.*); WHICH fitting table is chosen is a space
+				// policy and is not asserted.
+				if n == 1 {
+					assert!(unsafe { DC_KIND[0] } == 1 && unsafe { DC_TABLE[0] } == tid(tier as usize) && unsafe { DC_INDEX[0] } == offset && unsafe { DC_LEN[0] } == len, "U8d.set.in_place_rewrites_the_entry_of_the_key");
+					assert!(matches!(outcome, Some(PlanOutcome::Written)) && new_addr.is_none(), "U8d.set.in_place_outcome");
 				} else {
-					assert!(n == 2 && unsafe { DC_KIND[0] } == 2 && unsafe { DC_TABLE[0] } == tid(tier as usize) && unsafe { DC_INDEX[0] } == offset, "U8d.set.other_tier_releases_old_entry");
-					assert!(unsafe { DC_KIND[1] } == 3 && unsafe { DC_TABLE[1] } == tid(target) && unsafe { DC_LEN[1] } == len, "U8d.set.other_tier_inserts_into_selected_tier");
-					assert!(outcome.is_none(), "U8d.set.other_tier_outcome");
+					assert!(n == 2 && unsafe { DC_KIND[0] } == 2 && unsafe { DC_TABLE[0] } == tid(tier as usize) && unsafe { DC_INDEX[0] } == offset, "U8d.set.move_releases_old_entry");
+					assert!(unsafe { DC_KIND[1] } == 3 && unsafe { DC_LEN[1] } == len, "U8d.set.move_inserts_the_value");
+					assert!(outcome.is_none(), "U8d.set.move_outcome");
 					match new_addr {
-						Some(a) => assert!(a.size_tier() as usize == if target == 3 { 255 } else { target } || a.size_tier() as usize == target, "U8d.set.new_address_names_selected_tier"),
+						Some(a) => {
+							let t1 = unsafe { DC_TABLE[1] };
+							// the address carries the position of the table in the column's table vector
+							let named = if (a.size_tier() as usize) < 4 { tid(a.size_tier() as usize) } else { 0xffff };
+							assert!(named == t1, "U8d.set.new_address_names_the_table_written_to");
+							assert!(a.offset() == unsafe { DC_NEW_OFFSET }, "U8d.set.new_address_names_inserted_slot");
+						},
 						None => assert!(false, "U8d.set.new_address_reported"),
-					}
-					if let Some(a) = new_addr {
-						assert!(a.offset() == unsafe { DC_NEW_OFFSET }, "U8d.set.new_address_names_inserted_slot");
 					}
 				}
 			} else {
@@ -317,8 +321,8 @@ fn u8_dispatch(op: u8, ref_counted: bool, preimage: bool) {
 			}
 		},
 	}
-	kani::cover!(op == 0 && !ref_counted && !preimage && tier as usize != target, "opt: set moves tier");
-	kani::cover!(op == 0 && !ref_counted && !preimage && tier as usize == target, "opt: set in place");
+	kani::cover!(op == 0 && !ref_counted && !preimage && n == 2, "opt: set moves tier");
+	kani::cover!(op == 0 && !ref_counted && !preimage && n == 1, "opt: set in place");
 	std::mem::forget(tables);
 }
 dispatch_harness!(#[kani::unwind(6)] u8d_set_plain, u8_dispatch(0, false, false));
